@@ -269,10 +269,22 @@ class ParallelScheduler(RunScheduler):
             thread.start()
 
         exceptions = []
-        for thread in self._worker_threads:
-            thread.join()
-            if thread.exception is not None:
-                exceptions.append(thread.exception)
+        try:
+            for thread in self._worker_threads:
+                thread.join()
+                if thread.exception is not None:
+                    exceptions.append(thread.exception)
+        except KeyboardInterrupt:
+            # Only the main thread sees the interrupt. Stop the workers before it
+            # propagates: hand out no more work, kill the running benchmarks,
+            # and wait for the workers, so that nothing is executed or recorded
+            # while or after the caller cleans up.
+            with self._lock:
+                self._remaining_work = []
+            self._executor.running_processes.kill_all_and_refuse_more()
+            for thread in self._worker_threads:
+                thread.join()
+            raise
 
         if exceptions:
             if len(exceptions) == 1:
@@ -312,6 +324,7 @@ class Executor(object):
                  use_denoise=True):
         self.use_denoise = use_denoise
         self._runs = runs
+        self.running_processes = subprocess_timeout.RunningProcesses()
 
         self._use_nice = use_nice
         self._use_shielding = use_shielding
@@ -561,7 +574,8 @@ class Executor(object):
                 stderr=subprocess.STDOUT, shell=True, verbose=self.debug,
                 timeout=run_id.max_invocation_time,
                 keep_alive_output=_keep_alive,
-                uses_sudo=self.use_denoise
+                uses_sudo=self.use_denoise,
+                running=self.running_processes
             )
         except OSError as err:
             run_id.fail_immediately()
